@@ -39,6 +39,7 @@ type c03Case struct {
 	All     scanOut   `json:"all"`
 	Froms   []scanOut `json:"froms"`
 	Ranges  []scanOut `json:"ranges"`
+	Multi   []scanOut `json:"multi,omitempty"` // three full scans opened together, drained one after the other
 	Fatal   string    `json:"fatal,omitempty"`
 }
 
@@ -48,7 +49,7 @@ func (c *c03Case) Exec() {
 			c.Fatal = fmt.Sprint("panic: ", r)
 		}
 	}()
-	c.Fatal, c.OpenErr, c.Gets, c.Froms, c.Ranges = "", "", nil, nil, nil
+	c.Fatal, c.OpenErr, c.Gets, c.Froms, c.Ranges, c.Multi = "", "", nil, nil, nil, nil
 	dir := tmpDir("c03-")
 	defer os.RemoveAll(dir)
 	var err error
@@ -101,6 +102,20 @@ func (c *c03Case) Exec() {
 		it, err := r.ScanRange(b[0], b[1])
 		c.Ranges = append(c.Ranges, drainTable(it, err, limit))
 	}
+	// several scanners of one reader alive at the same time: each is drained completely while the others wait
+	c.Multi = nil
+	type open struct {
+		it  sstables.SSTableIteratorI
+		err error
+	}
+	var scans []open
+	for i := 0; i < 3; i++ {
+		it, err := r.Scan()
+		scans = append(scans, open{it, err})
+	}
+	for _, i := range [][]int{{0, 1, 2}, {1, 0, 2}, {2, 1, 0}, {0, 2, 1}}[len(c.KVs)%4] {
+		c.Multi = append(c.Multi, drainTable(scans[i].it, scans[i].err, limit))
+	}
 }
 
 func tblEq(a []tblKV, b []tblKV) bool {
@@ -124,6 +139,11 @@ func (c *c03Case) Oracle() (bool, string) {
 	}
 	if c.All.Err != "" || !tblEq(c.All.KVs, c.KVs) {
 		return false, fmt.Sprintf("Scan differs from the written pairs (err=%q, %d of %d)", c.All.Err, len(c.All.KVs), len(c.KVs))
+	}
+	for i, m := range c.Multi {
+		if m.Err != "" || !tblEq(m.KVs, c.KVs) {
+			return false, fmt.Sprintf("of three scans opened together the one drained as number %d differs from the written pairs (err=%q, %d of %d)", i+1, m.Err, len(m.KVs), len(c.KVs))
+		}
 	}
 	for i, p := range c.Probes {
 		g := c.Gets[i]
@@ -181,6 +201,9 @@ func (c *c03Case) Oracle() (bool, string) {
 func (c *c03Case) Sx() string {
 	if c.Fatal != "" || c.OpenErr != "" {
 		return ""
+	}
+	if len(c.KVs) > 400 {
+		return "" // tables of thousands of keys are judged by the oracle only (the model's byte-level evaluation of such files needs tens of gigabytes)
 	}
 	var gets, froms, ranges []string
 	for i, p := range c.Probes {
